@@ -547,7 +547,7 @@ fn metadata_histories_from(t: &mut Tally, n: usize, only: Option<&[String]>) {
     if only.is_some() && decoded.is_none() {
         return;
     }
-    let mut one = |t: &mut Tally, start: usize, q: &[usize]| {
+    let one = |t: &mut Tally, start: usize, q: &[usize]| {
         let mine: Vec<String> = std::iter::once(format!("start {}", start)).chain(q.iter().map(|o| label(*o))).collect();
         t.evals += 1;
         t.validated += 1;
